@@ -3,6 +3,7 @@
 
 mod basic;
 mod exec;
+mod gcjudge;
 mod report;
 mod structural;
 
@@ -107,6 +108,7 @@ fn main() {
                 "C20" => basic::c20(c, &mut rep),
                 "C03" | "C04" => structural::run(c, &mut rep, &prop),
                 "C01" => exec::c01(c, &mut rep, seed),
+                "C06" | "C07" => gcjudge::run(c, &mut rep, &prop, seed),
                 _ => rep.harness_error(&format!("no judge for {}", prop)),
             }
         }
